@@ -8,7 +8,9 @@ EXTENDS LoaderUser, IOUtils
 
 O(c, p) == [cls |-> c, parent |-> p]
 R(o, tf, to, post, inner, sw) == [owner |-> o, tf |-> tf, to |-> to, post |-> post, inner |-> inner, swallow |-> sw]
-F(kind, objs, refs, imports) == [kind |-> kind, objs |-> objs, refs |-> refs, imports |-> imports]
+F(kind, objs, refs, imports) == [kind |-> kind, objs |-> objs, refs |-> refs, imports |-> imports, prim |-> FALSE]
+\* a file whose model is a plain value (abstract root rule matching a base type)
+PrimFile == [kind |-> "main", objs |-> <<>>, refs |-> <<>>, imports |-> <<>>, prim |-> TRUE]
 
 \* file bodies
 MainObjs  == <<O("Model", 0), O("Pkg", 1), O("DefA", 2), O("DefB", 2), O("Use", 1)>>
@@ -20,6 +22,7 @@ FollowFile(n) == F("follow", FollowObjs, <<R(4, n, 3, 0, 0, FALSE)>>, <<>>)
 
 Nest(n) ==
   CASE n = "one"   -> <<F("main", MainObjs, <<R(3, 1, 4, 1, 0, FALSE), R(5, 1, 3, 0, 0, FALSE)>>, <<>>), FollowFile(2)>>
+    [] n = "prim"  -> <<PrimFile, FollowFile(2)>>
     [] n = "two"   -> <<F("main", MainObjs, <<R(3, 1, 4, 0, 0, FALSE), R(5, 2, 2, 0, 0, FALSE)>>, <<2>>),
                         F("import", ImpObjs, <<R(2, 2, 4, 1, 0, FALSE)>>, <<1>>), FollowFile(3)>>
     [] n = "chain" -> <<F("main", MainObjs, <<R(3, 1, 4, 0, 0, FALSE), R(5, 2, 2, 0, 0, FALSE)>>, <<2>>),
@@ -37,8 +40,8 @@ AllProcs == <<"Model", "Pkg", "DefA", "DefB", "Use">>
 RECURSIVE Flat(_)
 Flat(ss) == IF ss = <<>> THEN <<>> ELSE Head(ss) \o Flat(Tail(ss))
 
-NestSmall == <<"one", "two", "fan", "swallow">>
-NestFull  == <<"one", "two", "chain", "fan", "inner", "swallow">>
+NestSmall == <<"one", "prim", "two", "fan", "swallow">>
+NestFull  == <<"one", "prim", "two", "chain", "fan", "inner", "swallow">>
 UserSmall == << <<>>, <<"Pkg", "DefA">>, <<"Model", "Pkg", "DefA">> >>
 UserFull  == << <<>>, <<"DefA">>, <<"Pkg", "DefA">>, <<"Model", "Pkg", "DefA">> >>
 RefSteps  == <<"matchproc", "provider", "unknown", "unresolvable">>
@@ -70,7 +73,7 @@ MCSmall == UniverseOf(NestSmall, UserSmall, <<FALSE>>)
 MCFull  == UniverseOf(NestFull, UserFull, <<FALSE, TRUE>>)
 
 AllDev == {"RestoreOnlyMainParser", "RestoreWithoutInstrument", "StoreKeptOnFailure",
-           "NoCleanupOnModelProcessorFailure"}
+           "NoCleanupOnModelProcessorFailure", "NoRestoreForPrimitiveModel"}
 NoDev  == {}
 
 SmallSpec == InitWith(Range(MCSmall)) /\ [][Next]_vars
